@@ -313,6 +313,7 @@ def mk_engine(objs=(), policies=None, identity=("alice", None), version=(1, 2), 
     if crypto is not None:
         e._cryptography_engine = crypto
     engine_mod.time = FakeTime(now)
+    engine_mod.copy = types.SimpleNamespace(deepcopy=pie_clone, copy=_real_copy.copy)
     return e, s
 
 
@@ -384,6 +385,49 @@ def engine_frame(e):
         e.database_path,
         sorted(k for k in e.__dict__ if k not in TRANSIENT),
     )
+
+
+_real_copy = copy
+
+
+def _kind_of(o):
+    for k in KINDS:
+        if type(o).__name__ == k:
+            return k
+    return None
+
+
+def pie_clone(o, memo=None):
+    """copy.deepcopy for the engine module.  A pie object built outside a real session cannot be
+    deep-copied (SQLAlchemy's list listeners run before the copied instance has its index columns:
+    an artefact of the stub store, not of PyKMIP), so managed objects are cloned field by field;
+    everything else is deep-copied as usual."""
+    k = _kind_of(o) if isinstance(o, pobjects.ManagedObject) else None
+    if k is None:
+        return _real_copy.deepcopy(o, memo) if memo is not None else _real_copy.deepcopy(o)
+    with NoTracing():
+        c = _mk_base(k, None)
+        c.unique_identifier = o.unique_identifier
+        if hasattr(o, "cryptographic_usage_masks"):
+            c.cryptographic_usage_masks = list(o.cryptographic_usage_masks)
+        if hasattr(o, "state"):
+            c.state = o.state
+        for g in o.object_groups:
+            c.object_groups.append(pobjects.ObjectGroup(object_group=g.object_group))
+        for a in o.app_specific_info:
+            c.app_specific_info.append(pobjects.ApplicationSpecificInformation(
+                application_namespace=a.application_namespace, application_data=a.application_data))
+    for f in FIELDS:
+        if f in ("unique_identifier", "state") or not hasattr(o, f):
+            continue
+        try:
+            setattr(c, f, getattr(o, f))
+        except Exception:
+            pass
+    c.names = list(o.names)
+    if hasattr(o, "key_wrapping_data"):
+        c.key_wrapping_data = _real_copy.deepcopy(o.key_wrapping_data)
+    return c
 
 
 def warm_up():
